@@ -67,7 +67,7 @@ Infix   == WantsOperator /\ \E o \in InfixOps : Put(Tok("op", o), "operand", sta
 Percent == UsePercent /\ expect = "operator" /\ Last.k # "post" /\ Put(Tok("post", "%"), "operator", stack)
 Sep     == WantsOperator /\ stack # <<>> /\ Put(Tok("sep", ","), "operand", stack)
 Close   == WantsOperator /\ stack # <<>> /\ Put(Tok("close", ")"), "operator", SubSeq(stack, 1, Len(stack) - 1))
-Isect   == expect = "operator" /\ Last.k \in {"ref", "close"} /\ \E b \in BlankRuns : Put([k |-> "isect", n |-> b], "strict", stack)
+Isect   == expect = "operator" /\ Last.k \in {"ref", "close", "name"} /\ \E b \in BlankRuns : Put([k |-> "isect", n |-> b], "strict", stack)
 WsA     == expect = "operand" /\ \E b \in BlankRuns : Put([k |-> "ws", n |-> b], "operand1", stack)
 WsB     == expect = "operator" /\ \E b \in BlankRuns : Put([k |-> "ws", n |-> b], "operator1", stack)
 
@@ -93,6 +93,12 @@ Depths(f, d) == IF f = <<>> THEN <<>>
                 ELSE LET d2 == d + (IF Head(f).k \in {"open", "fn"} THEN 1 ELSE IF Head(f).k = "close" THEN -1 ELSE 0)
                      IN <<d2>> \o Depths(Tail(f), d2)
 NoDoubleBlank(f) == \A i \in 1..(Len(f) - 1) : ~(f[i].k \in {"ws", "isect"} /\ f[i + 1].k \in {"ws", "isect"})
+(* Which blanks are intersection operators: exactly those between the end of one operand (a reference, a name, *)
+(* a literal, the closing parenthesis of a function call or of a sub-expression, %) and the start of the next   *)
+(* (an operand, a function call, an opening parenthesis).  Every other blank run is optional white space.        *)
+BetweenOperands(f, i) == i > 1 /\ i < Len(f) /\ EndsOperand(f[i - 1]) /\ f[i + 1].k \in {"ref", "num", "str", "name", "bool", "err", "arr", "brk", "open", "fn"}
+BlanksClassified(f) == \A i \in DOMAIN f : /\ (f[i].k = "isect" => BetweenOperands(f, i))
+                                            /\ (f[i].k = "ws" => ~BetweenOperands(f, i))
 WellFormed(f) ==
   LET s == Solid(f)
       d == Depths(s, 0)
@@ -102,7 +108,9 @@ WellFormed(f) ==
      /\ d[Len(d)] = 0
      /\ \A i \in DOMAIN s : s[i].k = "sep" => d[i] >= 1        \* separators only inside parentheses
      /\ NoDoubleBlank(f)
-     /\ \A i \in DOMAIN f : f[i].k = "isect" => (i > 1 /\ i < Len(f) /\ f[i - 1].k \in {"ref", "close"})
+     /\ \A i \in DOMAIN f : f[i].k = "isect" => (i > 1 /\ i < Len(f) /\ f[i - 1].k \in {"ref", "close", "name"})
+     /\ BlanksClassified(f)
+
 
 (* ---- properties checked by TLC on every reachable generator state ---------- *)
 StackMatches == LET d == Depths(toks, 0) IN Len(stack) = (IF d = <<>> THEN 0 ELSE d[Len(d)])
